@@ -526,7 +526,8 @@ async def process_changing_cause(
 
     # Regular causes also do some implicit post-handling when all handlers are done.
     if done or skip:
-        if cause.new is not None and cause.old != cause.new:
+        # NB: `!=` alone would miss the changes that Python equates but JSON does not (e.g. 1 -> true).
+        if cause.new is not None and (cause.old != cause.new or cause.diff):
             settings.persistence.diffbase_storage.store(body=body, patch=patch, essence=cause.new)
 
         # Once all handlers have succeeded at least once for any reason, or if there were none,
